@@ -63,3 +63,7 @@ impl SampleGenerator<f64> for ZXAyChip {
         SoundSample::new(sample.left, sample.right)
     }
 }
+
+#[cfg(kani)]
+#[path = "/verif/hooks/core/ay.rs"]
+mod verif_hooks;
